@@ -15,32 +15,48 @@ PROP = dict(
          "negative-bin DFT and the Tuner's exact modular phase reduction (128-bit integers) are harness code",
     rule="case = one (length, letter) / (length, impulse position) / (n, n', letter) for hilbert; one design (response over the whole "
          "0.0005 grid of the stated pass-band) or one (design, tone, framing) stream for HilbertFilter; one (fs, f, framing) stream "
-         "with every sample compared for Tuner. Non-trivial = input with >= 2 non-zero samples (hilbert), every filter case, "
+         "with every sample compared for Tuner; one (D, type, framing) stream for Delay. Non-trivial = input with >= 2 non-zero samples (hilbert), every filter case, "
          "Tuner cases with f != 0",
     bounds=dict(
         quick="hilbert(x): every n in 3..512 + {1000,1023,1024,4095,4096} x 7 letters (const, alternating, 2 on-bin tones, off-bin tone, "
-              "tone+DC, LCG), every impulse for n <= 64; hilbert(x,n'): n in 3..32, every n' in 3..2n, 2 letters; HilbertFilter: flen "
-              "{31,32,51,101,200,201,401} x tw {0.005,0.01,0.05,0.1}: response on the 0.0005 grid over [max(2tw,6/M), 0.5-same], "
-              "process() on 16 tones x 2 framings (3M+64 samples); Tuner: fs {8,9,100,8000,100000} x up to 29 values of f in "
+              "tone+DC, LCG), every impulse for n <= 64; BIG: n in {4097, 65536, 65537 (prime), 100000} x 4 letters (real part in full, "
+              "negative bins on a subset: 3 at either end, mirrors of the tone bins, 256 spread evenly) and hilbert(x,n') for (n,n') in "
+              "{(100000,65536),(100000,65537),(4097,65537),(65536,100000)}; hilbert(x,n'): n in 3..32, every n' in 3..2n, 2 letters; "
+              "HilbertFilter: flen {31,32,51,101,200,201,401} x tw {0.005,0.01,0.05,0.1}: response on the 0.0005 grid over "
+              "[max(2tw,6/M), 0.5-same], process() on 16 tones x 2 framings (3M+64 samples); BIG: flen {101,400} tone of 140000 samples "
+              "in one call / frames of 1000 / frames [65536,1,999,70000]; Delay<real>, Delay<cmplx>: D in {1,50,65535,65536,70000}, "
+              "140000 samples in one call / frames of 1000, bit-exact; Tuner: fs {8,9,100,8000,100000} x up to 29 values of f in "
               "[-fs/2,fs/2] (0, +-1, +-3, +-fs/4, +-fs/2, +-0.5, +-1.25, +-2.5, +-(fs-1)/2, +-(fs/2-1), +-440.3, +-(fs/2-0.1), +-1/3, +-fs/3, "
-              "+-0.001) x 7 framings: one call / frames 1,2,3,5,7,11,64,1000 cyclic / frames of fs samples over ceil(3.5 fs) (fs <= 100) "
-              "or 2.5 fs samples, and - for every fs - the cyclic frame patterns [2fs+3,1,fs-1,3fs+1,5], [fs+1], [3fs], [1,4fs+2,7] "
-              "(frames longer than fs and than 2 fs followed by further frames) over 9 fs + 17 samples; every sample compared",
-        thorough="hilbert(x): every n in 3..2048 + {4095,4096,6000}, every impulse for n <= 128; hilbert(x,n') as quick; HilbertFilter: "
-                 "every flen in 31..401 x tw {0.005,0.01,0.02,0.05,0.1} (1855 designs), response grid and 16 tones x 2 framings each; "
-                 "Tuner: fs {8,9,10,11,100,101,8000,44100,48000,100000}, same f set and 7 framings, every sample of ceil(3.5 fs) "
-                 "(framings 0-2) / 9 fs + 17 (long-frame framings 3-6)"),
-    deadline=dict(quick=150, thorough=1500),
+              "+-0.001) x 9 framings: one call / frames 1,2,3,5,7,11,64,1000 cyclic / frames of fs samples over ceil(3.5 fs) (fs <= 100) "
+              "or 2.5 fs samples; the cyclic frame patterns [2fs+3,1,fs-1,3fs+1,5], [fs+1], [3fs], [1,4fs+2,7] (frames longer than fs "
+              "and than 2 fs followed by further frames) over 9 fs + 17 samples; BIG: 140000 samples in frames of 1000 and in one call "
+              "(sample index crossing 65536, up to 17500 counter wraps); every sample compared",
+        thorough="hilbert(x): every n in 3..4096 x 7 letters (all negative bins), every n in 4097..8192: real part 7 letters, all negative "
+                 "bins 3 letters (alternating, off-bin tone, LCG) - i.e. every prime up to 8192; impulses: every position for n <= 512, "
+                 "positions 1 and n-1 for every n <= 4096, additionally 0 and n/2 for every prime n; BIG: n in {4097, 8191, 8192, 16384, "
+                 "32768, 65521, 65535, 65536, 65537, 100000, 131071, 131072} x 4 letters (1024-bin subset) and the quick n' pairs; "
+                 "hilbert(x,n'): n in 3..160, every n' in 3..2n+1, and n in {255,256,257,509,512,1021,1024,2048} x n' in n-3..n+3, n/2, "
+                 "n/2+1, 2n-1, 2n, 2n+1, 67, 127, 4093, 4096, 4099; HilbertFilter: every flen in 31..401 x tw {0.005,0.0075,0.01,0.015,"
+                 "0.02,0.03,0.05,0.075,0.1} (3339 designs), response on a 0.000125 grid, 16 tones x 3 framings each, long streams as "
+                 "quick; Delay: D in {1,2,3,50,999,1000,1001,4095,4096,4097,65535,65536,65537,70000} x 4 framings; Tuner: 44 sample "
+                 "rates 8..100000 (8..20, 25, 31..33, 63..65, 100, 101, 127, 128, 255..257, 999..1001, 4095, 4096, 8000, 11025, 22050, "
+                 "32000, 44100, 48000, 65535, 65536, 65537, 88200, 96000, 100000; odd fs with f = +-fs/2 included) x up to 47 values of "
+                 "f (the quick set and +-fs/5, +-fs/7, +-0.1, +-(fs/2-0.001), +-(fs/2-1/3), +-2/3, +-7.75, +-(fs/6+0.25), +-1000.0625) x "
+                 "9 framings, every sample of ceil(5.5 fs) (framings 0-2) / 9 fs + 17 (3-6) / 140000 (7, 8)"),
+    deadline=dict(quick=150, thorough=3000),
     assumptions=COMMON_ASSUME + [
         "tolerances: real(hilbert(x)) - x and hilbert(x,n') - hilbert(pad(x)) are measured as max element error against tol(n)*||x||_2, "
         "negative bins as max |H_k| against tol(n)*||X||_2 (the weaker, per-element reading of the DESIGN's bound) with "
         "tol(n) = max(1e-12, 64*n*eps): the flat 1e-12 of the DESIGN is tighter than the library's own fft accuracy contract "
         "(C01/C02: 32*n*eps per transform) for n > 70 and was met with only 2.2x margin at prime n ~ 1500",
         "the statement fixes only real part and negative bins of the analytic signal; imaginary DC/Nyquist content is not checked",
+        "for n > 8192 (cases marked BIG) the O(n^2) long-double DFT is evaluated on a subset of the negative bins only (both ends of "
+        "the range, mirror images of the tone bins, 256/1024 evenly spread): less than the statement demands, never more",
+        "Delay<T>(D) (include/dsplib/delay.h, the mechanism behind HilbertFilter's real part) is read as out[k] = x[k-D], zeros before",
         "HilbertFilter: M is the actual impz() length (even requests are rounded up by the library), group delay D = M/2 (integer "
         "division), the 1e-3 quadrature bound is applied once the FIR is filled (k >= M-1); the real part is compared by value from k = 0",
         "Tuner: f in [-fs/2, fs/2] (closed, real-valued bound) is admissible; tolerance 1e-9 relative to |x[k]|; "
-        "frames of length 0 are not generated; 'any number of calls and samples' is explored through 7 fixed frame patterns "
+        "frames of length 0 are not generated; 'any number of calls and samples' is explored through 9 fixed frame patterns "
         "(frames of 1 sample up to 4 fs + 2 samples), not through all compositions of the stream",
     ],
 )
